@@ -1,7 +1,7 @@
 SPECIFICATION Spec
 CONSTANTS
 Grid = {0, 2, 3, 4}
-Funs = {2}
+Funs = {2, 5}
 INVARIANTS ClassifiedOnce Consecutive AgreesWithDefinition ZeroMatrixOneClass
 PROPERTIES Progress CutsNeverRise
 CHECK_DEADLOCK FALSE
